@@ -83,6 +83,9 @@ func (e *Engine) BuildVC(fn *ssa.Function) (vc *FnVC) {
 			}
 		}
 	}
+	if sp != nil {
+		fr.lets = vc.declareLets(fr, sp, st, fr.params)
+	}
 	// preconditions
 	if sp != nil {
 		for _, c := range sp.Clauses {
@@ -139,7 +142,8 @@ func (e *Engine) BuildVC(fn *ssa.Function) (vc *FnVC) {
 	vc.bindResults(vars, res, fn)
 	if sp != nil {
 		// postconditions are evaluated with parameter names bound to entry values
-		pfr := &frame{fn: fn, names: map[string]*ssa.Alloc{}, spec: sp, vals: fr.vals}
+		pfr := &frame{fn: fn, names: map[string]*ssa.Alloc{}, spec: sp, vals: fr.vals, lets: fr.lets}
+		vc.ghostExit(pfr, fin, sp, vars)
 		for nme, a := range fr.names {
 			if _, isParam := fr.params[nme]; !isParam {
 				pfr.names[nme] = a
@@ -488,4 +492,95 @@ func walkExpr(e Expr, f func(Expr)) {
 	case *EQuant:
 		walkExpr(x.Body, f)
 	}
+}
+
+// declareLets introduces the contract-local spec functions of sp (uninterpreted, with their defining axioms
+// evaluated in state st, which is the pre-state of the call / the entry state of the function).
+func (vc *FnVC) declareLets(fr *frame, sp *FuncSpec, st *state, vars map[string]val) map[string]val {
+	if len(sp.Lets) == 0 {
+		return nil
+	}
+	lets := map[string]val{}
+	c := vc.newCtx(fr, st, st, vars)
+	for _, ls := range sp.Lets {
+		name := vc.newName("let:" + ls.Name)
+		var ps []string
+		for _, p := range ls.Params {
+			t := c.resolveType(p.Type)
+			if t == tMathInt {
+				ps = append(ps, "Int")
+			} else {
+				ps = append(ps, vc.sorts.SortOf(t))
+			}
+		}
+		rt := c.resolveType(ls.Result)
+		rs := "Int"
+		if rt != tMathInt {
+			rs = vc.sorts.SortOf(rt)
+		}
+		vc.declared[name] = true
+		vc.decl = append(vc.decl, fmt.Sprintf("(declare-fun %s (%s) %s)", name, strings.Join(ps, " "), rs))
+		lets["let$"+ls.Name] = val{t: name, let: ls}
+	}
+	all := map[string]val{}
+	for k, v := range vars {
+		all[k] = v
+	}
+	for k, v := range lets {
+		all[k] = v
+	}
+	for _, ls := range sp.Lets {
+		for _, ax := range ls.Axioms {
+			t := vc.evalBool(fr, st, st, ax, all)
+			vc.assume("true", t)
+		}
+	}
+	vc.assumption("contract-local spec functions (let) are total functions of the pre-state defined by their axioms")
+	return lets
+}
+
+// ghostExit applies the ghost updates declared by ghostensures at function exit (ghost code has no body statement):
+// the ghost locations named in modifies are havocked and the ghostensures are assumed, before ensures are checked.
+func (vc *FnVC) ghostExit(pfr *frame, fin *state, sp *FuncSpec, vars map[string]val) {
+	has := false
+	for _, c := range sp.Clauses {
+		if c.Kind == "ghostensures" {
+			has = true
+		}
+	}
+	if !has || sp.Kind == "functype" {
+		return
+	}
+	for _, cl := range sp.Clauses {
+		if cl.Kind != "modifies" {
+			continue
+		}
+		for _, m := range cl.Mods {
+			if vc.isGhostLoc(pfr, m, vars) {
+				vc.havocExpr(pfr, fin, vc.old, m, vars)
+			}
+		}
+	}
+	for _, c := range sp.Clauses {
+		if c.Kind == "ghostensures" {
+			t := vc.evalBool(pfr, fin, vc.old, c.E, vars)
+			vc.assume(fin.reach, t)
+			vc.assumption("ghost update at exit of " + vc.key + ": " + c.Src)
+		}
+	}
+}
+
+func (vc *FnVC) isGhostLoc(pfr *frame, m Expr, vars map[string]val) bool {
+	sel, ok := m.(*ESel)
+	if !ok {
+		return false
+	}
+	for _, gs := range vc.eng.db.Ghosts {
+		for _, g := range gs {
+			if g.Name == sel.Name {
+				return true
+			}
+		}
+	}
+	return false
 }
